@@ -215,6 +215,9 @@ func dpKeyVal(dp *measurev1.DataPoint, groupBy []string, field string) (string, 
 func normalizeMeasureResp(r *measurev1.QueryResponse) *measurev1.QueryResponse {
 	c := proto.Clone(r).(*measurev1.QueryResponse)
 	c.Trace = nil
+	for _, dp := range c.DataPoints { // server-side bookkeeping, not part of the answer
+		dp.Version, dp.Sid = 0, 0
+	}
 	return c
 }
 
@@ -266,6 +269,37 @@ func firstDifference(a, b proto.Message) map[string]any {
 	return out
 }
 
+// modelStreamAnswer is the documented answer of a time-ordered stream query: matching rows in time order, the
+// window [offset, offset+limit) of them (limit 0 = the server default of 20). nil when the request leaves the
+// order open.
+func modelStreamAnswer(req *streamv1.QueryRequest, tr *tree, rows []qrow) []int64 {
+	if req.OrderBy == nil || req.OrderBy.IndexRuleName != "" {
+		return nil
+	}
+	var m []qrow
+	for _, q := range rows {
+		if tr.eval(q) {
+			m = append(m, q)
+		}
+	}
+	asc := req.OrderBy.Sort != modelv1.Sort_SORT_DESC
+	sort.Slice(m, func(i, j int) bool { return m[i].ts.Before(m[j].ts) == asc })
+	limit := int(req.Limit)
+	if limit == 0 {
+		limit = 20
+	}
+	lo := min(int(req.Offset), len(m))
+	hi := min(lo+limit, len(m))
+	out := []int64{}
+	for _, q := range m[lo:hi] {
+		out = append(out, q.uid)
+	}
+	return out
+}
+
+// kpG is the key prefix compareStream uses (set by runDifferential).
+var kpG = "c15"
+
 func elemUID(e *streamv1.Element) int64 {
 	for _, tf := range e.TagFamilies {
 		for _, tg := range tf.Tags {
@@ -294,19 +328,19 @@ func compareStream(req *streamv1.QueryRequest, a, c *streamv1.QueryResponse, dur
 				prefix = prefix && proto.Equal(a.Elements[i], c.Elements[i])
 			}
 			if prefix {
-				return "c15:stream:criteria+time-order:vectorized-answer-is-a-strict-prefix-of-row-answer", d
+				return kpG + ":stream:criteria+time-order:vectorized-answer-is-a-strict-prefix-of-row-answer", d
 			}
 		}
-		return "c15:response-differs:stream", d
+		return kpG + ":response-differs:stream", d
 	}
 	if len(a.Elements) != len(c.Elements) {
-		return "c15:response-differs:stream:index-order:row-count", d
+		return kpG + ":response-differs:stream:index-order:row-count", d
 	}
 	n := len(a.Elements)
 	for i := 0; i < n; i++ {
 		if dur[elemUID(a.Elements[i])] != dur[elemUID(c.Elements[i])] {
 			d["first_differing_order_key_at"] = i
-			return "c15:response-differs:stream:index-order:key-sequence", d
+			return kpG + ":response-differs:stream:index-order:key-sequence", d
 		}
 	}
 	// tie groups
@@ -328,12 +362,12 @@ func compareStream(req *streamv1.QueryRequest, a, c *streamv1.QueryResponse, dur
 				o, ok := vc[u]
 				if !ok {
 					d["tie_group_key"], d["element_only_in_vectorized_uid"] = k, u
-					return "c15:response-differs:stream:index-order:tie-group-members", d
+					return kpG + ":response-differs:stream:index-order:tie-group-members", d
 				}
 				x, y := proto.Clone(e).(*streamv1.Element), proto.Clone(o).(*streamv1.Element)
 				if !proto.Equal(x, y) {
 					d["tie_group_key"], d["uid"] = k, u
-					return "c15:response-differs:stream:index-order:element-content", d
+					return kpG + ":response-differs:stream:index-order:element-content", d
 				}
 			}
 		}
@@ -348,6 +382,13 @@ func TestVerifC15(t *testing.T) {
 	defer vec.stop()
 	row := boot(t, "--measure-vectorized-enabled=false", "--stream-vectorized-enabled=false", "--trace-vectorized-enabled=false")
 	defer row.stop()
+	runDifferential(t, s, vec, row, "c15", "vectorized", "row", nil)
+	s.Done()
+}
+
+// runDifferential feeds two servers the same rows and the same seeded programs and compares the answers
+// (kp prefixes the violation keys; la/lb name the two sides; settle, if given, waits until side A has all rows).
+func runDifferential(t *testing.T, s *verifh.Sink, vec, row *srv, kp, la, lb string, settle func(rows []qrow, arows []aggRow) bool) {
 	base := time.Date(2024, 5, 10, 0, 0, 0, 0, time.UTC)
 	lo, hi := base.Add(-time.Hour), base.Add(6*24*time.Hour)
 	// --- dataset A: the criteria/order workload of C08/C09 (streams + measures)
@@ -389,7 +430,7 @@ func TestVerifC15(t *testing.T) {
 				if j%2 == 1 {
 					at = time.Duration(3-h) * time.Minute
 				}
-				a := aggRow{id: fmt.Sprintf("a%02d", j), uid: uid, ts: base.Add(time.Duration(j%3)*24*time.Hour + 20*time.Hour + at + time.Duration(sign+1)*time.Second), v: sign * (1<<58 + 2*j + h), fl: 1}
+				a := aggRow{id: fmt.Sprintf("a%02d", j), uid: uid, ts: base.Add(time.Duration(j%3)*24*time.Hour + 20*time.Hour + at + time.Duration(sign+1+10*j)*time.Second), v: sign * (1<<58 + 2*j + h), fl: 1}
 				a.svc, a.region = fmt.Sprintf("svc-%d", int(a.id[2]-'0')%3), fmt.Sprintf("r%d", int(a.id[2]-'0')%2)
 				arows = append(arows, a)
 			}
@@ -402,6 +443,11 @@ func TestVerifC15(t *testing.T) {
 	durOf := map[int64]int64{}
 	for _, q := range rows {
 		durOf[q.uid] = q.dur
+	}
+	kpG = kp
+	if settle != nil && !settle(rows, arows) {
+		s.Inconclusive("side " + la + " did not hold all rows within the settle bound")
+		return
 	}
 	h0, s0 := vmplan.HandledCount(), vstream.QueryCount()
 	nQ := verifh.Pick(160, 2500)
@@ -440,7 +486,58 @@ func TestVerifC15(t *testing.T) {
 				if key, d := compareStream(req, a, c, durOf); key != "" {
 					s.Count("disagreements_checked", 1)
 					d["program"] = desc
-					s.Violation(key, d)
+					// when the two sides differ, the side under test (A) may still be the one that is right: judge it
+					// against the documented answer where the request defines one (side B's deviation belongs to C15/C09)
+					if want := modelStreamAnswer(req, tr, rows); want != nil && kp != "c15" {
+						var got []int64
+						for _, e := range a.Elements {
+							got = append(got, elemUID(e))
+						}
+						var gotB []int64
+						for _, e := range c.Elements {
+							gotB = append(gotB, elemUID(e))
+						}
+						// every node cuts its own scan, so the merged answer may also have holes: an ordered
+						// subsequence of the documented window
+						full := modelStreamAnswer(&streamv1.QueryRequest{OrderBy: req.OrderBy, Limit: 1 << 30}, tr, rows)
+						isStart := func(x []int64) bool { // an ordered subsequence of all matching rows
+							j := 0
+							for _, u := range x {
+								for j < len(full) && full[j] != u {
+									j++
+								}
+								if j == len(full) {
+									return false
+								}
+								j++
+							}
+							return true
+						}
+						if fmt.Sprint(got) == fmt.Sprint(want) || (len(got) == 0 && len(want) == 0) {
+							s.Count(kp+".side_"+la+"_matches_the_model_where_side_"+lb+"_does_not", 1)
+							key = ""
+						} else if req.Criteria != nil && isStart(got) && isStart(gotB) {
+							key = kp + ":stream:criteria-evaluated-after-scan:cluster-and-standalone-cut-the-window-at-different-points"
+							d["model_rows"], d["side_"+la+"_rows"], d["side_"+lb+"_rows"] = len(want), len(got), len(gotB)
+						} else {
+							d["model_uids"], d["side_"+la+"_uids"] = clipS(fmt.Sprint(want), 300), clipS(fmt.Sprint(got), 300)
+						}
+					}
+					if key != "" && kp != "c15" && req.Criteria != nil && req.OrderBy == nil {
+						// no order requested: the model defines no window, but the same defect shows as one side's
+						// answer being the start of the other's
+						n := min(len(a.Elements), len(c.Elements))
+						same := n > 0 || len(a.Elements) != len(c.Elements)
+						for i := 0; i < n; i++ {
+							same = same && proto.Equal(a.Elements[i], c.Elements[i])
+						}
+						if same && len(a.Elements) != len(c.Elements) {
+							key = kp + ":stream:criteria-evaluated-after-scan:cluster-and-standalone-cut-the-window-at-different-points"
+						}
+					}
+					if key != "" {
+						s.Violation(key, d)
+					}
 				}
 				rv, rr = nil, nil // judged above
 			}
@@ -513,9 +610,33 @@ func TestVerifC15(t *testing.T) {
 				}
 				rr = c
 			}
+			// TOP/BOTTOM-N over aggregates: groups with equal aggregate values may come in any order and any of
+			// them may fill the last places, so with ties only the values are compared
+			if a != nil && c != nil && q.top > 0 && q.hasAgg && !proto.Equal(a, c) {
+				vals := func(r *measurev1.QueryResponse) (out []int64, tie bool) {
+					seen := map[int64]bool{}
+					for _, dp := range r.DataPoints {
+						for _, f := range dp.Fields {
+							if f.Name == q.field {
+								v := f.Value.GetInt().GetValue()
+								tie = tie || seen[v]
+								seen[v] = true
+								out = append(out, v)
+							}
+						}
+					}
+					return out, tie
+				}
+				va, tie := vals(a)
+				vc, _ := vals(c)
+				if tie && fmt.Sprint(va) == fmt.Sprint(vc) {
+					rv, rr = nil, nil
+					s.Count(kp+".top_answers_equal_up_to_ties", 1)
+				}
+			}
 			// C10: both servers' answers against the reference (group key -> aggregate)
 			for si, resp := range []*measurev1.QueryResponse{c, a} {
-				path := []string{"row", "vectorized"}[si]
+				path := []string{lb, la}[si]
 				if resp == nil {
 					continue
 				}
@@ -538,6 +659,8 @@ func TestVerifC15(t *testing.T) {
 						key := "c10:svc:" + path + ":" + fnName(q.fn) + ":differs-from-reference"
 						if fnName(q.fn) == "MEAN" && strings.Contains(d, "clamped") {
 							key = "agg:int64:MEAN:clamped-to-1-when-mean-below-1"
+						} else if path == "cluster" && spansShards(q) && vec.replicas > 0 && !dup {
+							key = "c10:svc:cluster:group-spanning-shards-with-replicas:partials-miscounted"
 						}
 						s.Violation(key, map[string]any{"query": q.desc, "path": path, "discrepancy": d, "group_returned_twice": dup, "groups_expected": len(want), "groups_returned": len(got)})
 					}
@@ -551,9 +674,9 @@ func TestVerifC15(t *testing.T) {
 		s.Case(desc, handled)
 		s.Count("programs", 1)
 		if handled {
-			s.Count("c15.programs_handled_by_vectorized_path", 1)
+			s.Count(kp+".programs_handled_by_vectorized_path", 1)
 		} else {
-			s.Count("c15.programs_that_fell_back_to_row_path", 1)
+			s.Count(kp+".programs_that_fell_back_to_row_path", 1)
 		}
 		if i < 3 {
 			s.Sample(map[string]any{"program": desc, "vectorized_path_handled_it": handled})
@@ -561,29 +684,48 @@ func TestVerifC15(t *testing.T) {
 		switch {
 		case (ev == nil) != (er == nil):
 			s.Count("disagreements_checked", 1)
-			key := "c15:error-on-one-path-only"
+			key := kp + ":error-on-one-path-only"
 			if ev != nil && strings.HasPrefix(desc, "measure ") && strings.Contains(ev.Error(), "panic") && strings.Contains(desc, `name:"labels"`) {
 				// the vectorized path adds the criteria tags to the projection; an indexed string-array tag of a
 				// measure cannot be decoded from the series index (the C01 finding), so only this path fails
-				key = "c15:measure:criteria-on-indexed-string-array-tag:vectorized-path-panics"
+				key = kp + ":measure:criteria-on-indexed-string-array-tag:vectorized-path-panics"
+			}
+			if kp == "c17" && ev != nil && strings.HasPrefix(desc, "stream ") && strings.Contains(desc, "index_rule_name") && strings.Contains(ev.Error(), "tag dur not found") &&
+				!strings.Contains(desc, `tags:"dur"`) {
+				// the coordinator needs the ordered tag in the elements to merge the nodes' answers and looks it up in
+				// the projected schema only
+				key = "c17:stream:index-order-without-projecting-the-ordered-tag:cluster-rejects-the-query"
 			}
 			s.Violation(key, map[string]any{"program": desc, "vectorized_err": fmt.Sprint(ev), "row_err": fmt.Sprint(er)})
 		case ev != nil:
-			s.Count("c15.rejected_by_both", 1)
+			s.Count(kp+".rejected_by_both", 1)
 		case rv != nil && rr != nil && !proto.Equal(rv, rr):
 			s.Count("disagreements_checked", 1)
 			kind := strings.SplitN(desc, " ", 2)[0]
 			d := firstDifference(rv, rr)
 			d["program"] = desc
-			s.Violation("c15:response-differs:"+kind, d)
+			key := kp + ":response-differs:" + kind
+			if kp == "c17" && kind == "measure-agg" && vec.replicas > 0 && strings.Contains(desc, "group by svc") && !strings.Contains(desc, "MIN(") && !strings.Contains(desc, "MAX(") {
+				key = "c17:measure-agg:group-spanning-shards-with-replicas:partials-miscounted"
+			}
+			s.Violation(key, d)
 		}
 	}
-	s.Count("c15.vectorized_measure_handled_total", vmplan.HandledCount()-h0)
-	s.Count("c15.vectorized_stream_queries_total", vstream.QueryCount()-s0)
+	s.Count(kp+".vectorized_measure_handled_total", vmplan.HandledCount()-h0)
+	s.Count(kp+".vectorized_stream_queries_total", vstream.QueryCount()-s0)
 	if vmplan.HandledCount()-h0 == 0 && vstream.QueryCount()-s0 == 0 {
 		s.Inconclusive("the vectorized path never handled a query")
 	}
-	s.Done()
+}
+
+// spansShards: the group-by key does not contain the entity tag, so one group holds series of several shards.
+func spansShards(q aggQuery) bool {
+	for _, g := range q.groupBy {
+		if g == "id" {
+			return false
+		}
+	}
+	return q.hasAgg && len(q.groupBy) > 0
 }
 
 func diffAgg(got, want map[string]int64, q aggQuery) string {
